@@ -281,10 +281,18 @@ def dominating_conditions(fa, bb):
                 elif fa.dominates(f, bb) and not fa.dominates(tr, bb):
                     out.append((unwrap_ovf(o), neg, b.i))
         else:
+            integer = o[0] != "disc" and (t.get("discr_ty") or "") in ("u8", "u16", "u32", "u64", "u128", "usize", "i8", "i16", "i32", "i64", "i128", "isize")
             for v, x in list(m.items()) + [("otherwise", t["otherwise"])]:
                 others = [y for w, y in list(m.items()) + [("otherwise", t["otherwise"])] if w != v]
                 if fa.dominates(x, bb) and not any(fa.dominates(y, bb) for y in others if y != x):
                     out.append((unwrap_ovf(o), v, b.i))
+                    if integer:
+                        # `match n { 0 => .., k => .. }` states the same facts as `if n == 0 { .. } else { .. }`
+                        if v == "otherwise":
+                            for w in m:
+                                out.append((("bin", "Eq", unwrap_ovf(o), ("lit", w)), False, b.i))
+                        else:
+                            out.append((("bin", "Eq", unwrap_ovf(o), ("lit", v)), True, b.i))
     return out
 
 
